@@ -76,6 +76,38 @@ impl<R: RngCore> RngCore for CountingRng<R> {
 
 pub type Op = Box<dyn Fn(u64, &mut dyn RngCore) -> String + Send + Sync>;
 
+/// a generator that parks its thread inside its first draw until it is released
+struct Parked {
+    gate: std::sync::Arc<(std::sync::Mutex<(bool, bool)>, std::sync::Condvar)>,
+    inner: StdRng,
+    done: bool,
+}
+impl Parked {
+    fn park(&mut self) {
+        if !self.done {
+            self.done = true;
+            let mut st = self.gate.0.lock().expect("gate");
+            st.0 = true;
+            self.gate.1.notify_all();
+            let _ = self.gate.1.wait_timeout_while(st, std::time::Duration::from_secs(20), |st| !st.1).expect("gate");
+        }
+    }
+}
+impl RngCore for Parked {
+    fn next_u32(&mut self) -> u32 {
+        self.park();
+        self.inner.next_u32()
+    }
+    fn next_u64(&mut self) -> u64 {
+        self.park();
+        self.inner.next_u64()
+    }
+    fn fill_bytes(&mut self, d: &mut [u8]) {
+        self.park();
+        self.inner.fill_bytes(d);
+    }
+}
+
 fn dbg<T: std::fmt::Debug>(t: T) -> String {
     format!("{t:?}")
 }
@@ -129,6 +161,42 @@ pub fn ops() -> Vec<(&'static str, Op)> {
                 let _ = Lexicase::new(9).select(&pop, &mut scratch);
             }
             dbg(sel.select(&pop, r).map(|i| pop.iter().position(|p| std::ptr::eq(p, i))).map_err(|e| e.to_string()))
+        })));
+    }
+    {
+        // ... nor on what ANOTHER THREAD is doing with the same selector value at the same moment: on every second
+        // call a second thread is parked INSIDE `select` of this very `Lexicase` (its generator blocks in its first
+        // draw until the observed selection is over)
+        let calls = std::sync::atomic::AtomicU64::new(0);
+        let sel = Lexicase::new(4);
+        v.push(("lexicase_while_another_thread_selects", Box::new(move |a, r| {
+            let pop = population(a);
+            let n = calls.fetch_add(1, std::sync::atomic::Ordering::Relaxed);
+            if n % 2 == 0 {
+                return dbg(sel.select(&pop, r).map(|i| pop.iter().position(|p| std::ptr::eq(p, i))).map_err(|e| e.to_string()));
+            }
+            let gate = std::sync::Arc::new((std::sync::Mutex::new((false, false)), std::sync::Condvar::new())); // (parked, released)
+            std::thread::scope(|sc| {
+                let (g2, sel2, pop2) = (gate.clone(), &sel, &pop);
+                sc.spawn(move || {
+                    let mut parked = Parked { gate: g2, inner: StdRng::seed_from_u64(n), done: false };
+                    let _ = sel2.select(pop2, &mut parked);
+                    // a selection that drew nothing never parked: say so, or the observer waits in vain
+                    let mut st = parked.gate.0.lock().expect("gate");
+                    st.0 = true;
+                    parked.gate.1.notify_all();
+                });
+                {
+                    let st = gate.0.lock().expect("gate");
+                    let _ = gate.1.wait_timeout_while(st, std::time::Duration::from_secs(5), |st| !st.0).expect("gate");
+                }
+                let res = dbg(sel.select(&pop, r).map(|i| pop.iter().position(|p| std::ptr::eq(p, i))).map_err(|e| e.to_string()));
+                let mut st = gate.0.lock().expect("gate");
+                st.1 = true;
+                gate.1.notify_all();
+                drop(st);
+                res
+            })
         })));
     }
     {
